@@ -1204,8 +1204,22 @@ class RawAlgorithmsMixIn:
 
         (xbar_data, ybar_data) = out
 
-        xbar_data += cls._dot(zbar_data, cls._transpose(y_data), out = xbar_data.copy())
-        ybar_data += cls._dot(cls._transpose(x_data), zbar_data, out = ybar_data.copy())
+        x_ndim = x_data.ndim - 2
+        y_ndim = y_data.ndim - 2
+
+        if x_ndim == 2 and y_ndim == 1:
+            # matrix . vector:  xbar += outer(zbar, y)
+            xbar_data += cls._outer(zbar_data, y_data, out = xbar_data.copy())
+            ybar_data += cls._dot(cls._transpose(x_data), zbar_data, out = ybar_data.copy())
+
+        elif x_ndim == 1 and y_ndim == 2:
+            # vector . matrix:  ybar += outer(x, zbar)
+            xbar_data += cls._dot(zbar_data, cls._transpose(y_data), out = xbar_data.copy())
+            ybar_data += cls._outer(x_data, zbar_data, out = ybar_data.copy())
+
+        else:
+            xbar_data += cls._dot(zbar_data, cls._transpose(y_data), out = xbar_data.copy())
+            ybar_data += cls._dot(cls._transpose(x_data), zbar_data, out = ybar_data.copy())
 
         return out
 
